@@ -153,7 +153,8 @@ def generate(run_seed):
         # object answered before must not stick to it
         u = rng.choice(pool)
         ask = rng.choice(["repository", "repository", "load", "t_load"])
-        script += [[ask, u], rng.choice([["refresh", rng.choice([u] + roots)], ["advance"]]), [ask, u]]
+        script += [[ask, u], rng.choice([["refresh", rng.choice([u] + roots)], ["advance"], ["wipe_cache"]]),
+                   [rng.choice([ask, "t2_load"]) if ask == "t_load" else ask, u]]
         template = None
     if template:
         root = rng.choice(roots)
@@ -186,7 +187,8 @@ def generate(run_seed):
         elif r < 0.92:
             script.append([rng.choice(["t_deferred_load", "t_load", "t2_load", "t2_deferred_load"]), u])
         elif r < 0.96:
-            script.append(["advance"])
+            # the cache directory ages, or is emptied by whoever tidies the temporary directory
+            script.append(["advance"] if rng.random() < 0.6 else ["wipe_cache"])
         else:
             script.append(["quiesce"])
     policy = rng.choice(POLICIES)
@@ -608,6 +610,19 @@ def run_script(case, mode, forced=None):
                     scheduler.quiesce()
                 clock.advance(2 * 86400)
                 return None
+            if name == "wipe_cache":
+                # an event of the environment, at quiescence: every cache file is gone (the
+                # directory stays); whatever is loaded stays loaded, the next fetch starts afresh
+                if scheduler is not None:
+                    scheduler.quiesce()
+                import tempfile as _tf
+                cdir = os.path.join(_tf.gettempdir(), "odml.cache")
+                if os.path.isdir(cdir):
+                    for fn in sorted(os.listdir(cdir)):
+                        fp = os.path.join(cdir, fn)
+                        if os.path.isfile(fp):
+                            os.remove(fp)
+                return None
             raise ValueError(name)
 
         with loader_seams(world, scheduler):
@@ -811,6 +826,8 @@ class Model(object):
                 self.reload = False
             elif name == "advance":
                 self.now += 2 * 86400
+            elif name == "wipe_cache":
+                self.cache.clear()
             out.append(exp)
         final = {}
         for n in sorted(self.nodes):
@@ -997,7 +1014,10 @@ def judge(case, hist, ref, scheduled):
                             message="%s(%s) at quiescence returned another object than an earlier %s" %
                             (opname, n, opname))
     # 5. failed fetches leave the cache untouched
+    wiped = any(op and op[0] == "wipe_cache" for op in case.get("script", []))
     for n in hist["failed_fetch"]:
+        if wiped and hist["cache_after"].get(n) is None:
+            continue        # the environment emptied the cache directory during the run
         if hist["cache_before"].get(n) != hist["cache_after"].get(n):
             return dict(sig("load.cache-untouched", "fetch", "cache-changed"),
                         message="the fetch of %s failed but its cache file changed: %r -> %r" %
